@@ -444,3 +444,183 @@ Proof.
   - apply words_app. split; [|apply words_app; auto].
     apply Forall_concat. eapply Forall_impl; [|exact Hrej]. cbn. intros c (_ & H2 & _). exact H2.
 Qed.
+
+(** ** ranges *)
+Lemma omap_lift_u_bind (o : outcome (Z * list Z)) (g : Z -> Z) :
+  (do x <- omap lift_u o; let '(n, r) := x in Ret (enc (g (val n)), r))
+  = omap lift_u (do x <- o; let '(c, r) := x in Ret (g (val (enc c)), r)).
+Proof. destruct o as [[c r]| |]; reflexivity. Qed.
+
+Lemma spec_below_nonneg bound s c r : spec_below bound s = Ret (c, r) -> words s -> 0 <= c.
+Proof. intros E Hs. apply (spec_below_ret bound s c r Hs E). Qed.
+
+Theorem gen_biguint_range_spec p lo hi s : addsub_ok p = true -> canon lo -> canon hi -> words s ->
+  gen_biguint_range p lo hi s = omap lift_u (spec_range (val lo) (val hi) s).
+Proof.
+  intros Hp Hlo Hhi Hs. unfold gen_biguint_range, spec_range.
+  rewrite cmp_slice_spec by auto. cbn [bind].
+  pose proof (val_nonneg lo (proj1 Hlo)) as Vlo.
+  destruct (Z.compare_spec (val lo) (val hi)) as [E|E|E]; cbn [is_lt assert_ bind];
+    try (replace (val hi <=? val lo) with true by (symmetry; apply Z.leb_le; lia); reflexivity).
+  replace (val hi <=? val lo) with false by (symmetry; apply Z.leb_gt; lia).
+  rewrite uis_zero_spec by auto. destruct (Z.eqb_spec (val lo) 0) as [Z0|Z0].
+  - rewrite gen_biguint_below_spec by auto. rewrite Z0, Z.sub_0_r.
+    destruct (spec_below (val hi) s) as [[c r]| |]; reflexivity.
+  - rewrite usub_spec by (auto; apply Hlo || apply Hhi).
+    replace (val hi <? val lo) with false by (symmetry; apply Z.ltb_ge; lia). cbn [bind].
+    rewrite gen_biguint_below_spec by (auto using enc_canon). rewrite enc_val by lia.
+    destruct (spec_below (val hi - val lo) s) as [[c r]| |] eqn:Bq; cbn [omap bind]; try reflexivity.
+    pose proof (spec_below_nonneg _ _ _ _ Bq Hs) as Hc0.
+    unfold lift_u; cbn [fst snd]. rewrite uadd_spec by (auto using enc_canon). cbn [bind].
+    rewrite enc_val by lia. do 3 f_equal. lia.
+Qed.
+
+Lemma icanon_pos_mag x : icanon x -> 0 < ival x -> val (mag x) = ival x.
+Proof.
+  intros Hx Hp. destruct (icanon_cases x Hx) as [(S & M & V)|[(S & P & V)|(S & P & V)]]; lia.
+Qed.
+Lemma icanon_neg_mag x : icanon x -> ival x < 0 -> val (mag x) = - ival x.
+Proof.
+  intros Hx Hp. destruct (icanon_cases x Hx) as [(S & M & V)|[(S & P & V)|(S & P & V)]]; lia.
+Qed.
+Lemma mag_ienc z : mag (ienc z) = enc (Z.abs z). Proof. reflexivity. Qed.
+
+(** the common tail: `lbound + BigInt::from(gen_biguint_below(m))` *)
+Lemma irange_tail p lo m s : addsub_ok p = true -> icanon lo -> canon m -> words s ->
+  (do x <- gen_biguint_below m s; let '(n, r) := x in do v <- iadd p lo (ifrom_u n); Ret (v, r))
+  = omap lift_i (do x <- spec_below (val m) s; let '(c, r) := x in Ret (ival lo + c, r)).
+Proof.
+  intros Hp Hlo Hm Hs. rewrite gen_biguint_below_spec by auto.
+  destruct (spec_below (val m) s) as [[c r]| |] eqn:Bq; cbn [omap bind]; try reflexivity.
+  pose proof (spec_below_nonneg _ _ _ _ Bq Hs) as Hc0.
+  unfold lift_u; cbn [fst snd]. rewrite ifrom_u_spec by apply enc_canon. rewrite enc_val by lia.
+  rewrite iadd_spec by (auto using ienc_canon). rewrite ienc_val. reflexivity.
+Qed.
+
+Theorem gen_bigint_range_spec p lo hi s : addsub_ok p = true -> icanon lo -> icanon hi -> words s ->
+  gen_bigint_range p lo hi s = omap lift_i (spec_range (ival lo) (ival hi) s).
+Proof.
+  intros Hp Hlo Hhi Hs. unfold gen_bigint_range, spec_range.
+  rewrite icmp_spec by auto. unfold spec_icmp. cbn [bind].
+  destruct (Z.compare_spec (ival lo) (ival hi)) as [E|E|E]; cbn [is_lt assert_ bind];
+    try (replace (ival hi <=? ival lo) with true by (symmetry; apply Z.leb_le; lia); reflexivity).
+  replace (ival hi <=? ival lo) with false by (symmetry; apply Z.leb_gt; lia).
+  rewrite !iis_zero_spec by auto. unfold spec_is_zero.
+  destruct (Z.eqb_spec (ival lo) 0) as [Z0|Z0]; [|destruct (Z.eqb_spec (ival hi) 0) as [Z1|Z1]].
+  - rewrite gen_biguint_below_spec by (auto using icanon_mag).
+    rewrite icanon_pos_mag by (auto; lia). rewrite Z0, Z.sub_0_r.
+    destruct (spec_below (ival hi) s) as [[c r]| |] eqn:Bq; cbn [omap bind]; try reflexivity.
+    pose proof (spec_below_nonneg _ _ _ _ Bq Hs) as Hc0.
+    unfold lift_u, lift_i; cbn [fst snd]. rewrite ifrom_u_spec by apply enc_canon.
+    rewrite enc_val by lia. reflexivity.
+  - rewrite irange_tail by (auto using icanon_mag). rewrite icanon_neg_mag by (auto; lia).
+    replace (ival hi - ival lo) with (- ival lo) by lia. reflexivity.
+  - rewrite isub_spec by auto. cbn [bind].
+    rewrite irange_tail by (auto; rewrite mag_ienc; apply enc_canon).
+    rewrite mag_ienc, enc_val by lia. rewrite Z.abs_eq by lia. reflexivity.
+Qed.
+
+(** ** Uniform samplers *)
+Theorem uu_new_sample_spec p lo hi s : addsub_ok p = true -> canon lo -> canon hi -> words s ->
+  (do u <- uu_new p lo hi; uu_sample p u s) = omap lift_u (spec_range (val lo) (val hi) s).
+Proof.
+  intros Hp Hlo Hhi Hs. unfold uu_new, uu_sample, spec_range.
+  rewrite cmp_slice_spec by auto. cbn [bind].
+  pose proof (val_nonneg lo (proj1 Hlo)) as Vlo.
+  destruct (Z.compare_spec (val lo) (val hi)) as [E|E|E]; cbn [is_lt assert_ bind];
+    try (replace (val hi <=? val lo) with true by (symmetry; apply Z.leb_le; lia); reflexivity).
+  replace (val hi <=? val lo) with false by (symmetry; apply Z.leb_gt; lia).
+  rewrite usub_spec by (auto; apply Hlo || apply Hhi).
+  replace (val hi <? val lo) with false by (symmetry; apply Z.ltb_ge; lia). cbn [bind uu_len uu_base].
+  rewrite gen_biguint_below_spec by (auto using enc_canon). rewrite enc_val by lia.
+  destruct (spec_below (val hi - val lo) s) as [[c r]| |] eqn:Bq; cbn [omap bind]; try reflexivity.
+  pose proof (spec_below_nonneg _ _ _ _ Bq Hs) as Hc0.
+  unfold lift_u; cbn [fst snd]. rewrite uadd_spec by (auto using enc_canon). cbn [bind].
+  rewrite enc_val by lia. do 3 f_equal. lia.
+Qed.
+
+Theorem uu_new_inclusive_sample_spec p lo hi s : addsub_ok p = true -> canon lo -> canon hi -> words s ->
+  (do u <- uu_new_inclusive p lo hi; uu_sample p u s)
+  = omap lift_u (spec_range_inclusive (val lo) (val hi) s).
+Proof.
+  intros Hp Hlo Hhi Hs. unfold uu_new_inclusive, spec_range_inclusive.
+  rewrite cmp_slice_spec by auto. cbn [bind].
+  pose proof (val_nonneg lo (proj1 Hlo)) as Vlo. pose proof (val_nonneg hi (proj1 Hhi)) as Vhi.
+  assert (Hgt : forall (X : outcome (list Z * list Z)),
+            val lo <= val hi -> (val hi <? val lo) = false)
+    by (intros; apply Z.ltb_ge; lia).
+  destruct (Z.compare_spec (val lo) (val hi)) as [E|E|E]; cbn [is_le assert_ bind];
+    try (replace (val hi <? val lo) with true by (symmetry; apply Z.ltb_lt; lia); reflexivity);
+    (replace (val hi <? val lo) with false by (symmetry; apply Z.ltb_ge; lia));
+    rewrite uadd_spec by (auto using canon_one); cbn [bind];
+    pose proof (uu_new_sample_spec p lo (enc (val hi + val [1])) s Hp Hlo (enc_canon _) Hs) as Hn;
+    cbn [bind] in Hn; rewrite enc_val in Hn by (rewrite val_single; lia);
+    rewrite val_single in *;
+    (destruct (uu_new p lo (enc (val hi + 1))) as [u| |]; cbn [bind] in *; rewrite Hn);
+    unfold spec_range; (replace (val hi + 1 <=? val lo) with false by (symmetry; apply Z.leb_gt; lia));
+    reflexivity.
+Qed.
+
+Theorem ui_new_sample_spec p lo hi s : addsub_ok p = true -> icanon lo -> icanon hi -> words s ->
+  (do u <- ui_new p lo hi; ui_sample p u s) = omap lift_i (spec_range (ival lo) (ival hi) s).
+Proof.
+  intros Hp Hlo Hhi Hs. unfold ui_new, ui_sample, spec_range.
+  rewrite icmp_spec by auto. unfold spec_icmp. cbn [bind].
+  destruct (Z.compare_spec (ival lo) (ival hi)) as [E|E|E]; cbn [is_lt assert_ bind];
+    try (replace (ival hi <=? ival lo) with true by (symmetry; apply Z.leb_le; lia); reflexivity).
+  replace (ival hi <=? ival lo) with false by (symmetry; apply Z.leb_gt; lia).
+  rewrite isub_spec by auto. cbn [bind ui_len ui_base into_parts snd].
+  rewrite irange_tail by (auto; rewrite mag_ienc; apply enc_canon).
+  rewrite mag_ienc, enc_val by lia. rewrite Z.abs_eq by lia. reflexivity.
+Qed.
+
+Theorem ui_new_inclusive_sample_spec p lo hi s : addsub_ok p = true -> icanon lo -> icanon hi -> words s ->
+  (do u <- ui_new_inclusive p lo hi; ui_sample p u s)
+  = omap lift_i (spec_range_inclusive (ival lo) (ival hi) s).
+Proof.
+  intros Hp Hlo Hhi Hs. unfold ui_new_inclusive, spec_range_inclusive.
+  rewrite icmp_spec by auto. unfold spec_icmp. cbn [bind].
+  destruct (Z.compare_spec (ival lo) (ival hi)) as [E|E|E]; cbn [is_le assert_ bind];
+    try (replace (ival hi <? ival lo) with true by (symmetry; apply Z.ltb_lt; lia); reflexivity);
+    (replace (ival hi <? ival lo) with false by (symmetry; apply Z.ltb_ge; lia));
+    rewrite iadd_spec by (auto using icanon_ione); cbn [bind]; rewrite ival_ione;
+    pose proof (ui_new_sample_spec p lo (ienc (ival hi + 1)) s Hp Hlo (ienc_canon _) Hs) as Hn;
+    cbn [bind] in Hn; rewrite ienc_val in Hn;
+    (destruct (ui_new p lo (ienc (ival hi + 1))) as [u| |]; cbn [bind] in *; rewrite Hn);
+    unfold spec_range; (replace (ival hi + 1 <=? ival lo) with false by (symmetry; apply Z.leb_gt; lia));
+    reflexivity.
+Qed.
+
+(** ** what the specification guarantees *)
+Theorem spec_range_ret lo hi s v r : words s -> spec_range lo hi s = Ret (v, r) ->
+  lo <= v < hi /\ words r.
+Proof.
+  intros Hs. unfold spec_range. destruct (hi <=? lo); [discriminate|].
+  destruct (spec_below (hi - lo) s) as [[c r']| |] eqn:Bq; cbn [bind]; try discriminate.
+  intros X; inversion X; subst. destruct (spec_below_ret _ _ _ _ Hs Bq). split; [lia|auto].
+Qed.
+
+Theorem spec_range_inclusive_ret lo hi s v r : words s -> spec_range_inclusive lo hi s = Ret (v, r) ->
+  lo <= v <= hi /\ words r.
+Proof.
+  intros Hs. unfold spec_range_inclusive. destruct (hi <? lo); [discriminate|].
+  destruct (spec_below (hi + 1 - lo) s) as [[c r']| |] eqn:Bq; cbn [bind]; try discriminate.
+  intros X; inversion X; subst. destruct (spec_below_ret _ _ _ _ Hs Bq). split; [lia|auto].
+Qed.
+
+Theorem spec_range_panic lo hi s k : spec_range lo hi s = Panic k <-> (hi <= lo /\ k = EmptyRange).
+Proof.
+  unfold spec_range. destruct (Z.leb_spec hi lo) as [L|L].
+  - split; [intros X; inversion X; auto|intros [_ ->]; reflexivity].
+  - split; [|lia]. destruct (spec_below (hi - lo) s) as [[c r']| |] eqn:Bq; cbn [bind]; try discriminate.
+    intros X; inversion X; subst. apply spec_below_panic in Bq. lia.
+Qed.
+
+Theorem spec_range_inclusive_panic lo hi s k :
+  spec_range_inclusive lo hi s = Panic k <-> (hi < lo /\ k = EmptyRange).
+Proof.
+  unfold spec_range_inclusive. destruct (Z.ltb_spec hi lo) as [L|L].
+  - split; [intros X; inversion X; auto|intros [_ ->]; reflexivity].
+  - split; [|lia]. destruct (spec_below (hi + 1 - lo) s) as [[c r']| |] eqn:Bq; cbn [bind]; try discriminate.
+    intros X; inversion X; subst. apply spec_below_panic in Bq. lia.
+Qed.
